@@ -517,12 +517,22 @@ def g10(rep):
         raise AnalysisBroken("fiRawRecordValues: expected one store `result[i] = <running offset>` in the loop, found %d" % len(stores))
     st, var = stores[0]
 
+    # a local of the loop body that holds `<running offset> % align` (or `& mask`) stands for that remainder
+    remainders = set()
+    for x in walk(loops[0]):
+        if x["k"] == "DeclStmt":
+            for d in x.get("decls", []):
+                if d.get("init") is not None and any(y["k"] == "BinaryOperator" and y["op"] in ("%", "&") and
+                                                     (strip(y["c"][0]) or {}).get("n") == var for y in walk(d["init"])):
+                    remainders.add(d["n"])
+
     def aligns(e):
         if e["k"] in ("BinaryOperator", "CompoundAssignOperator") and e["op"] in ("=", "+=", "&=", "-="):
             l = strip(e["c"][0])
             if l is not None and l["k"] == "DeclRefExpr" and l["n"] == var:
                 return any(y["k"] == "BinaryOperator" and y["op"] in ("%", "&") for y in walk(e["c"][1])) or e["op"] == "&=" or \
-                    any((y.get("mac") or "").startswith("ROUND_UP") for y in walk(e["c"][1]))
+                    any((y.get("mac") or "").startswith("ROUND_UP") for y in walk(e["c"][1])) or \
+                    any(y["k"] == "DeclRefExpr" and y["n"] in remainders for y in walk(e["c"][1]))
         return False
 
     # an alignment step precedes the store in the loop body (it may be conditional on "not aligned yet" / "alignment > 1")
